@@ -114,7 +114,7 @@ func init() {
 			g := &gen.G{R: ctx.Rng}
 			g.O = c02Opts(ctx.Rng, ctx.Tier)
 			g.O.ErrPlants = false
-			g.O.Big = g.O.Big && i%4 == 0 // (every write of every render is failed in turn: large outputs are kept rare here)
+			g.O.Big = false // (every write of every render is failed in turn, at the cost of a render each: large sizes come from the long-loop and long-value cases below, whose cost is known)
 			prog := g.Bundle(1+ctx.Rng.Intn(2), 2+ctx.Rng.Intn(3))
 			if i%10 == 0 {
 				// a tag-heavy message as the very last command of a one-template file: the pieces a message body is
@@ -229,6 +229,12 @@ func init() {
 				bounds = append(bounds, len(out))
 			}
 			O := string(out)
+			if len(O) > 1<<20 {
+				// (an output of megabytes: every fault costs a render of it, and a case of minutes looks like one that
+				// does not end; what large sizes are there for is served by outputs of hundreds of kilobytes)
+				ctx.Obs("outputs_too_large_for_enumeration", 1)
+				return fw.Result{Verdict: fw.Skip}
+			}
 			cd := dump(files, prog, prog.Data)
 			cd.Want = O
 			if want := ref.NormalizeRefs(ref.Text(segs)); curMsgs == nil && ref.NormalizeRefs(O) != want {
@@ -280,18 +286,29 @@ func init() {
 			// every write-call index; for the rare template with more than 2000 write calls (each fault costs a whole
 			// render: the enumeration is quadratic) the first 500, the last 500 and 500 drawn in between
 			ks := make([]int, 0, len(rec.writes))
-			if W := len(rec.writes); W <= 2000 {
+			// (... and a template whose output is large - hundreds of iterations over strings of kilobytes - is enumerated
+			// in part too: the work is the number of faults times the size of the output, and a case of minutes would be
+			// taken for one that does not end)
+			maxFaults := 2000
+			if byWork := (6 << 20) / (len(O) + 1); byWork < maxFaults {
+				maxFaults = byWork // (each fault index costs about eight renders, sixteen where the Renderer is executed once before)
+			}
+			if maxFaults < 6 {
+				maxFaults = 6
+			}
+			if W := len(rec.writes); W <= maxFaults {
 				for k := 0; k < W; k++ {
 					ks = append(ks, k)
 				}
 			} else {
-				for k := 0; k < 500; k++ {
+				third := maxFaults / 3
+				for k := 0; k < third; k++ {
 					ks = append(ks, k)
 				}
-				for j := 0; j < 500; j++ {
-					ks = append(ks, 500+ctx.Rng.Intn(W-1000))
+				for j := 0; j < third; j++ {
+					ks = append(ks, third+ctx.Rng.Intn(W-2*third))
 				}
-				for k := W - 500; k < W; k++ {
+				for k := W - third; k < W; k++ {
 					ks = append(ks, k)
 				}
 				ctx.Obs("templates_enumerated_in_part", 1)
